@@ -68,6 +68,7 @@ func (cw *c14World) bountyIdx() int { return cw.idx[keys.Address("oneledgerBount
 func (cw *c14World) execIdx() int   { return cw.idx[keys.Address("executionCost").String()] }
 
 var c14VDelta = map[int]int64{0: 3, 1: 4, 2: 5}
+var c14FundDL = map[int]int64{0: 10, 1: 10, 2: 10}
 var c14Pass = map[int]int{0: 51, 1: 60, 2: 67}
 var c14Types = []governance.ProposalType{governance.ProposalTypeConfigUpdate, governance.ProposalTypeCodeChange, governance.ProposalTypeGeneral}
 
@@ -78,7 +79,7 @@ func (cw *c14World) genesis() *GenesisSpec {
 		d1 := governance.ProposalFundDistribution{Validators: 30.5, FeePool: 9.5, Burn: 20, ExecutionCost: 10, BountyPool: 20, ProposerReward: 10}
 		d2 := governance.ProposalFundDistribution{Validators: 12.5, FeePool: 37.5, Burn: 0, ExecutionCost: 25, BountyPool: 12.5, ProposerReward: 12.5}
 		mk := func(t int, p, f governance.ProposalFundDistribution) governance.ProposalOption {
-			return governance.ProposalOption{InitialFunding: amt("1000000000"), FundingGoal: amt("10000000000"), FundingDeadline: 10, VotingDeadline: c14VDelta[t],
+			return governance.ProposalOption{InitialFunding: amt("1000000000"), FundingGoal: amt("10000000000"), FundingDeadline: c14FundDL[t], VotingDeadline: c14VDelta[t],
 				PassPercentage: c14Pass[t], PassedFundDistribution: p, FailedFundDistribution: f, ProposalExecutionCost: "executionCost"}
 		}
 		st.Governance.PropOptions = governance.ProposalOptionSet{ConfigUpdate: mk(0, d0, d1), CodeChange: mk(1, d1, d2), General: mk(2, d2, d0), BountyProgramAddr: "oneledgerBountyProgram"}
@@ -163,6 +164,7 @@ type c14Run struct {
 	pids   []string // proposal index -> hex id
 	nonce  int
 	pubFin bool // a public PROPOSAL_FINALIZE succeeded in the current block
+	passProp int // index of the proposal whose update changes configUpdate.passPercentage (-1 = none)
 }
 
 func (r *c14Run) env() int { return r.intern(r.envRaw()) }
@@ -348,6 +350,11 @@ func (r *c14Run) observe(m map[string]string) c14Obs {
 		x := new(big.Int).Sub(oo.PerBlockFees.BigInt(), big.NewInt(c14CfgBase+1))
 		if x.Sign() >= 0 && x.Cmp(big.NewInt(1000)) < 0 {
 			o.Applied = x.Int64()
+		}
+	}
+	if o.Applied < 0 && r.passProp >= 0 {
+		if po, err := gs.GetProposalOptions(); err == nil && po.ConfigUpdate.PassPercentage != c14Pass[0] {
+			o.Applied = int64(r.passProp)
 		}
 	}
 	return o
@@ -572,7 +579,11 @@ func (r *c14Run) randomOp(g *c14Gen, h int64) {
 		if id < 0 {
 			return
 		}
-		r.doFund(id, c14Pick(rnd, users), c14Amts[rnd.Intn(len(c14Amts))])
+		famt := c14Amts[rnd.Intn(len(c14Amts))]
+		if rnd.Intn(40) == 0 {
+			famt = "-" + famt // Validate does not look at the sign
+		}
+		r.doFund(id, c14Pick(rnd, users), famt)
 	case k < 62:
 		id := anyID(func(p *c14PObs) bool { return p.Stores == 1 && p.Status == 1 })
 		if id < 0 {
@@ -634,6 +645,9 @@ func (r *c14Run) randomOp(g *c14Gen, h int64) {
 				}
 			}
 		}
+		if rnd.Intn(40) == 0 {
+			amount = "-3"
+		}
 		ben := funder
 		if rnd.Intn(4) == 0 {
 			ben = c14Pick(rnd, users)
@@ -686,7 +700,7 @@ func c14NewRun(name string) *c14Run {
 	cw := c14NewWorld()
 	rep := NewReplica(cw.genesis(), ReplicaOpts{NodeVal: cw.w.Vals[0].Val})
 	rep.InitChain()
-	r := &c14Run{cw: cw, rep: rep, c: &c14Case{Name: name, Notes: map[string]interface{}{}}, envIdx: map[string]int{}}
+	r := &c14Run{cw: cw, rep: rep, c: &c14Case{Name: name, Notes: map[string]interface{}{}}, envIdx: map[string]int{}, passProp: -1}
 	o := r.observe(rep.View())
 	r.c.Init, r.c.Pool = o.Bal, o.Pool
 	// warm-up: the validator status records (active flags) that the voting snapshot reads are only
@@ -752,6 +766,65 @@ func c14ScriptE11() *c14Case {
 	r.beginBlock()
 	r.doWithdraw(0, 0, "2000000000", 0)
 	r.endBlock()
+	return r.finish()
+}
+
+// probe: a negative contribution (Validate checks the currency of a fund / withdraw amount, not its sign)
+func c14ScriptNegative() *c14Case {
+	r := c14NewRun("negfund")
+	h := r.beginBlock()
+	r.doCreate(2, 1, "5000000000", h+4, h+4+c14VDelta[2], "10000000000", int64(c14Pass[2]), "", true)
+	r.endBlock()
+	r.beginBlock()
+	u := r.userKey(2)
+	tx := txPropFundRaw(u, r.pids[0], oltAmt("-5000000000"), r.memo())
+	r.c.Notes["negfund_checktx_code"] = r.rep.CheckTx(tx).Code
+	r.doFund(0, 2, "-5000000000")
+	r.c.Notes["negfund_deliver_ok"] = r.c.Ops[len(r.c.Ops)-1].Ok
+	r.endBlock()
+	r.beginBlock()
+	r.doCancel(0, 1)
+	r.endBlock()
+	r.beginBlock()
+	r.doWithdraw(0, 1, "5000000000", 1)
+	r.doWithdraw(0, 2, "-1", 2)
+	r.endBlock()
+	return r.finish()
+}
+
+// probe: the vote handler tallies with the CURRENT option percentage, finalisation with the proposal's own
+func c14ScriptDrift() *c14Case {
+	// option values inside the ranges ValidateProposal demands, so that a proposal-option update validates
+	oldV, oldF := c14VDelta, c14FundDL
+	c14VDelta = map[int]int64{0: 10000, 1: 150000, 2: 75000}
+	c14FundDL = map[int]int64{0: 10000, 1: 10000, 2: 75000}
+	defer func() { c14VDelta, c14FundDL = oldV, oldF }()
+	r := c14NewRun("drift")
+	v0, v1, v2 := r.acct(r.cw.w.Vals[0].Val.Addr), r.acct(r.cw.w.Vals[1].Val.Addr), r.acct(r.cw.w.Vals[2].Val.Addr)
+	h := r.beginBlock()
+	r.passProp = 0
+	r.doCreate(0, 1, "1000000000", h+3, h+3+c14VDelta[0], "10000000000", int64(c14Pass[0]), "propOptions.configUpdate.passPercentage:80", true)
+	r.endBlock()
+	r.beginBlock()
+	r.doFund(0, 2, "9000000000")
+	r.doCreate(0, 3, "1000000000", h+4, h+4+c14VDelta[0], "10000000000", int64(c14Pass[0]), fmt.Sprintf("onsOptions.perBlockFees:%d", c14CfgBase+1+1), true)
+	r.endBlock()
+	r.beginBlock()
+	r.doVote(0, v0, 1)
+	r.doVote(0, v1, 1)
+	r.doFund(1, 4, "9000000000")
+	r.endBlock()
+	r.beginBlock() // p0 is finalised at this EndBlock: configUpdate.passPercentage becomes 80
+	r.endBlock()
+	r.beginBlock()
+	r.doVote(1, v0, 1)
+	r.doVote(1, v1, 1)
+	r.doVote(1, v2, 2) // yes 2/3 < 80%, 1-no = 2/3 < 80%: FAILED under the new option
+	r.endBlock()
+	for i := 0; i < 2; i++ {
+		r.beginBlock()
+		r.endBlock()
+	}
 	return r.finish()
 }
 
@@ -910,7 +983,7 @@ func c14Main(args []string) int {
 	fs.Parse(args)
 
 	cases := []*c14Case{}
-	builders := []func() *c14Case{c14ScriptE11, c14ScriptLife}
+	builders := []func() *c14Case{c14ScriptE11, c14ScriptLife, c14ScriptNegative, c14ScriptDrift}
 	for i := 0; i < *n; i++ {
 		ci := i
 		builders = append(builders, func() *c14Case { return c14Random(*seed, ci, *nb) })
